@@ -29,7 +29,7 @@
     C02_exact: pairs in which SQLite's Normalize rewrites something (autoindex names,
     re-symbolled foreign keys), and table attributes of MySQL / PostgreSQL. *)
 From Coq Require Import List NArith Bool Arith Permutation.
-From Atlas Require Import Base.Bytes Diff.Schema Diff.DiffModel Diff.DiffSqlite Diff.DiffDialects Diff.DiffProofs Diff.DiffSqliteProofs Diff.DiffDialectsProofs Diff.DiffSqliteCopy Diff.DiffMysqlVariants Diff.DiffMysqlVariantsProofs Diff.DiffUnnamedProofs Diff.DiffSqliteNumFk Diff.DiffRealm Diff.DiffRealmProofs Diff.DiffSqliteExact.
+From Atlas Require Import Base.Bytes Diff.Schema Diff.DiffModel Diff.DiffSqlite Diff.DiffDialects Diff.DiffProofs Diff.DiffSqliteProofs Diff.DiffDialectsProofs Diff.DiffSqliteCopy Diff.DiffMysqlVariants Diff.DiffMysqlVariantsProofs Diff.DiffUnnamedProofs Diff.DiffSqliteNumFk Diff.DiffRealm Diff.DiffRealmProofs Diff.DiffSqliteExact Diff.DiffTableAttrs Diff.DiffTableAttrsProofs.
 Import ListNotations.
 
 (** 1a. Generic: for every driver whose callbacks report nothing on identical
@@ -779,6 +779,103 @@ Theorem C02_exact_sqlite_partial :
     Some (sqlite_schema_expected skip ps scripts' ++ add_or_skip_s skip (map (fun t => AddTable (t_name t)) adds')).
 Proof. exact sqlite_schema_diff_closed. Qed.
 
+(** 10. Table attributes of MySQL / PostgreSQL (DiffTableAttrs.v: the wrapper [table_x] around
+    [table]; [schema_tx] with the schema's charset / collation as the inherited values).
+
+    10a. tableDiff with attributes = TableAttrDiff's attribute changes (never filtered: they are
+    appended, not passed through AddOrSkip) in front of 2f's list; an error of either part is an
+    error of the whole. *)
+Theorem C02_exact_table_attrs :
+  forall (D : DiffDriver) TA (skip : tag -> bool) pcs pco from to a r,
+  TA pcs pco from to = Some a -> table_diff D skip (tx_table from) (tx_table to) = Some r ->
+  table_diff_x D TA skip pcs pco from to = Some (a ++ r).
+Proof. exact table_diff_x_exact. Qed.
+
+(** 10b. SchemaDiff over tables with attributes, on every script of tables (as 2g). *)
+Theorem C02_exact_schema_tx :
+  forall (D : DiffDriver) TA (skip : tag -> bool) from to ps adds,
+  stx_name from = stx_name to -> stx_tables from = map fst ps -> script_ok tx_name ps adds ->
+  Permutation (stx_tables to) (kept ps ++ adds) ->
+  (forall t t', In (t, Some t') ps -> table_diff_x D TA skip (stx_charset from) (stx_collate from) t t' <> None) ->
+  exists adds', Permutation adds adds' /\
+    SchemaDiffX D TA skip from to =
+    Some (tbl_expected_x D TA skip (stx_charset from) (stx_collate from) ps
+          ++ add_or_skip_s skip (map (fun t => AddTable (tx_name t)) adds')).
+Proof. exact schema_diff_tx_exact. Qed.
+
+(** 10c. MySQL TableAttrDiff (attribute part) = six independent parts in the order of the code:
+    AUTO_INCREMENT, comment (8g), charset and collation (8f, inherited value = the schema's),
+    engine, system versioning. *)
+Theorem C02_mysql_table_attrs :
+  forall pcs pco from to,
+  mysql_table_attrs_x pcs pco from to =
+  Some (mysql_autoinc_change (tx_autoinc from) (tx_autoinc to)
+        ++ map sattr_change (comment_diff (tx_comment from) (tx_comment to))
+        ++ map sattr_change (mysql_attr_change ATTR_CHARSET (tx_charset from) pcs (tx_charset to))
+        ++ map sattr_change (mysql_attr_change ATTR_COLLATE (tx_collate from) pco (tx_collate to))
+        ++ mysql_engine_change (tx_engine from) (tx_engine to)
+        ++ mysql_sysver_change (tx_sysver from) (tx_sysver to)).
+Proof. exact mysql_table_attrs_parts. Qed.
+
+(** 10d. AUTO_INCREMENT is reported exactly when the desired table has a value > 1 that is above
+    the current one (absent = 0): it only seeds the counter. *)
+Theorem C02_mysql_autoinc_exact :
+  forall from to,
+  mysql_autoinc_change from to =
+  match to with
+  | Some t => if N.ltb 1 t && N.ltb (match from with Some f => f | None => 0%N end) t
+              then [ModifyAttr ATTR_AUTOINC] else []
+  | None => []
+  end.
+Proof. exact mysql_autoinc_exact. Qed.
+
+(** 10e. ENGINE: both present -> ModifyAttr iff the names differ ignoring case; removed from the
+    desired table -> ModifyAttr (to InnoDB) iff the current engine is neither flagged as the
+    server default nor InnoDB; added to a table that had none -> ModifyAttr unless flagged as
+    the default (also for InnoDB: the code compares the absent current name with "innodb"). *)
+Theorem C02_mysql_engine_exact :
+  forall from to,
+  match from, to with
+  | Some (fv, fd), Some (tv, td) =>
+      (to_lower fv = to_lower tv -> mysql_engine_change from to = []) /\
+      (to_lower fv <> to_lower tv -> mysql_engine_change from to = [ModifyAttr ATTR_ENGINE])
+  | Some (fv, fd), None =>
+      (fd = true \/ to_lower fv = INNODB_LOWER -> mysql_engine_change from to = []) /\
+      (fd = false /\ to_lower fv <> INNODB_LOWER -> mysql_engine_change from to = [ModifyAttr ATTR_ENGINE])
+  | None, Some (tv, td) =>
+      mysql_engine_change from to = if td then [] else [ModifyAttr ATTR_ENGINE]
+  | None, None => mysql_engine_change from to = []
+  end.
+Proof. exact mysql_engine_exact. Qed.
+
+(** 10f. PostgreSQL: a partition key that differs is an error of the diff (no change expresses
+    it); equal keys and equal comments report nothing; and for both dialects equal attributes
+    report nothing whatever the schema's charset / collation. *)
+Theorem C02_postgres_partition_error :
+  forall pcs pco from to, tx_partition from <> tx_partition to -> pg_table_attrs_x pcs pco from to = None.
+Proof. exact pg_partition_error. Qed.
+
+Theorem C02_table_attr_laws : ta_refl_law mysql_table_attrs_x /\ ta_refl_law pg_table_attrs_x.
+Proof. exact (conj mysql_ta_refl pg_ta_refl). Qed.
+
+(** 10g. A schema (tables with attributes) diffed with a copy: empty, for every driver with the
+    laws and every TableAttrDiff silent on equal attributes -- MySQL of every server variant,
+    PostgreSQL of every scope. *)
+Theorem C02_self_empty_tx :
+  forall (D : DiffDriver) TA (skip : tag -> bool) (dwf : table -> Prop) s,
+  refl_laws D -> sim_laws D dwf -> ta_refl_law TA -> wf_schema_tx dwf s ->
+  SchemaDiffX D TA skip s s = Some [].
+Proof. exact (fun D TA skip dwf s => schema_diff_tx_self D TA skip dwf s). Qed.
+
+Theorem C02_self_empty_tx_dialects :
+  (forall v skip s, wf_schema_tx (mysql_dwf_v v) s -> mysql_schema_diff_tx v skip s s = Some []) /\
+  (forall ns skip s, wf_schema_tx pg_dwf s -> pg_schema_diff_tx ns skip s s = Some []).
+Proof.
+  split.
+  - intros v skip s. exact (schema_diff_tx_self (mysql_driver_v v) _ skip (mysql_dwf_v v) s (mysql_refl_laws_v v) (mysql_sim_laws_v v) mysql_ta_refl).
+  - intros ns skip s. exact (schema_diff_tx_self (pg_driver_ns ns) _ skip pg_dwf s (pg_refl_laws_ns ns) (pg_sim_laws_ns ns) pg_ta_refl).
+Qed.
+
 (** * Non-vacuity: concrete inputs (vm_compute) *)
 Definition x_a : column := mkColumn [97]%N 2 [105;110;116]%N false None None None.
 Definition x_b : column := mkColumn [98]%N 3 [116;101;120;116]%N true (Some (DLit [39;120;39]%N)) None None.
@@ -998,6 +1095,33 @@ Proof.
     split; [intros c c2 [E|[]]; inversion E|]. split; [intros c2 []|intros a []].
 Qed.
 
+(* round 5: table attributes.  Current: ENGINE MyISAM, AUTO_INCREMENT 5, comment 'c', charset latin1 in a utf8mb4 schema;
+   desired: no engine, AUTO_INCREMENT 100, no comment, no charset, column c added *)
+Definition x_myisam : str := [77;121;73;83;65;77]%N.
+Definition x_tx1 : table_x := mkTableX x_t (Some [99]%N) (Some x_latin1) None (Some (x_myisam, false)) (Some 5%N) false None.
+Definition x_tx2 : table_x := mkTableX (mkTable [116]%N false false [x_a; x_b; x_c] None [x_i1] [x_f1] [x_k1])
+                                       None None None None (Some 100%N) false None.
+Example C02_ex_table_attrs :
+  mysql_schema_diff_tx x_v80 no_skip (mkSchemaTX [109]%N (Some x_utf8) None [x_tx1]) (mkSchemaTX [109]%N (Some x_utf8) None [x_tx2]) =
+  Some [ModifyTable [116]%N [ModifyAttr ATTR_AUTOINC; ModifyAttr ATTR_COMMENT; ModifyAttr ATTR_CHARSET; ModifyAttr ATTR_ENGINE;
+                            AddColumn [99]%N]] /\
+  mysql_schema_diff_tx x_v80 (fun t => match t with TgAddColumn => true | _ => false end)
+    (mkSchemaTX [109]%N (Some x_utf8) None [x_tx1]) (mkSchemaTX [109]%N (Some x_utf8) None [x_tx2]) =
+  Some [ModifyTable [116]%N [ModifyAttr ATTR_AUTOINC; ModifyAttr ATTR_COMMENT; ModifyAttr ATTR_CHARSET; ModifyAttr ATTR_ENGINE]] /\
+  mysql_schema_diff_tx x_v80 no_skip (mkSchemaTX [109]%N (Some x_utf8) None [x_tx1]) (mkSchemaTX [109]%N (Some x_utf8) None [x_tx1]) = Some [].
+Proof. repeat split; vm_compute; reflexivity. Qed.
+Example C02_ex_partition :
+  pg_table_attrs_x None None (mkTableX x_t None None None None None false (Some [82]%N))
+                             (mkTableX x_t None None None None None false (Some [72]%N)) = None /\
+  pg_table_attrs_x None None (mkTableX x_t None None None None None false (Some [82]%N))
+                             (mkTableX x_t (Some [99]%N) None None None None false (Some [82]%N)) = Some [AddAttr ATTR_COMMENT].
+Proof. split; vm_compute; reflexivity. Qed.
+Example C02_ex_engine_autoinc :
+  mysql_engine_change None (Some ([73;110;110;111;68;66]%N, false)) = [ModifyAttr ATTR_ENGINE] /\
+  mysql_engine_change (Some ([73;110;110;111;68;66]%N, false)) (Some (INNODB_LOWER, false)) = [] /\
+  mysql_autoinc_change (Some 1000%N) (Some 2%N) = [] /\ mysql_autoinc_change None (Some 2%N) = [ModifyAttr ATTR_AUTOINC].
+Proof. repeat split; vm_compute; reflexivity. Qed.
+
 Print Assumptions C02_self_empty.
 Print Assumptions C02_copy_empty.
 Print Assumptions C02_perm_empty.
@@ -1057,3 +1181,12 @@ Print Assumptions C02_realm_perm_empty_dialects.
 Print Assumptions C02_mysql_schema_attr_exact.
 Print Assumptions C02_comment_diff_exact.
 Print Assumptions C02_exact_sqlite_partial.
+Print Assumptions C02_exact_table_attrs.
+Print Assumptions C02_exact_schema_tx.
+Print Assumptions C02_mysql_table_attrs.
+Print Assumptions C02_mysql_autoinc_exact.
+Print Assumptions C02_mysql_engine_exact.
+Print Assumptions C02_postgres_partition_error.
+Print Assumptions C02_table_attr_laws.
+Print Assumptions C02_self_empty_tx.
+Print Assumptions C02_self_empty_tx_dialects.
